@@ -252,7 +252,8 @@ func c14Scribble(c *run.Ctx, r *gen.RNG) {
 			continue
 		}
 		junk := r.Bytes(len(buf))
-		c.Current(func() string { return "scribbler vs reader on " + T + " body " + hexClip(buf, 256) })
+		bodyHex := hexClip(buf, 256) // rendered now: buf belongs to the scribbler goroutine from here on
+		c.Current(func() string { return "scribbler vs reader on " + T + " body " + bodyHex })
 		start := make(chan struct{})
 		var wg sync.WaitGroup
 		wg.Add(2)
